@@ -69,7 +69,7 @@ Ltac tie_split :=
 
 Ltac tie_nat :=
   repeat first
-  [ rewrite Nat2Z.inj_add | rewrite Nat2Z.inj_mul | rewrite Nat2Z.inj_sub by lia
+  [ rewrite Nat2Z.inj_add | rewrite Nat2Z.inj_mul | rewrite Nat2Z.inj_div | rewrite Nat2Z.inj_sub by lia
   | rewrite Z2Nat.id by lia | rewrite Nat2Z.id | rewrite Nat2Z.inj_min | rewrite Nat2Z.inj_max ].
 
 Ltac tie_inj :=
@@ -80,6 +80,49 @@ Ltac tie_inj :=
   | H : (_, _) = (_, _) |- _ => injection H as ?H ?H; try subst
   end.
 
+(* integer goals with / and mod (Python's // and %, ceil of a quotient): Euclidean equations + nia *)
+Ltac tie_minmax :=
+  repeat match goal with
+  | |- context [Nat.min ?a ?b] => let H := fresh in destruct (Nat.min_spec a b) as [[H ->]|[H ->]]
+  | |- context [Nat.max ?a ?b] => let H := fresh in destruct (Nat.max_spec a b) as [[H ->]|[H ->]]
+  | |- context [Z.min ?a ?b] => let H := fresh in destruct (Z.min_spec a b) as [[H ->]|[H ->]]
+  | |- context [Z.max ?a ?b] => let H := fresh in destruct (Z.max_spec a b) as [[H ->]|[H ->]]
+  end.
+(* variables forced equal by the linear context (e.g. min a b = b together with ~ b < a) *)
+Ltac tie_eqs :=
+  repeat match goal with
+  | a : nat, b : nat |- _ => assert (a = b) by lia; subst b
+  | a : Z, b : Z |- _ => assert (a = b) by lia; subst b
+  end.
+Ltac tie_zarith1 := first [ lia | (exfalso; lia) | (tie_nat; simpl Z.of_nat; Z.to_euclidean_division_equations; nia) | (zify; Z.to_euclidean_division_equations; nia) ].
+Ltac tie_zarith := first [ tie_zarith1 | (tie_minmax; first [tie_zarith1 | (tie_eqs; tie_zarith1)]) ].
+
+(* real goals: non-zero divisors IZR d from the integer context, then push IZR through + - * and use field / lra *)
+Ltac tie_nz :=
+  repeat match goal with
+  | |- context [Rdiv _ (IZR ?d)] =>
+      lazymatch goal with
+      | H : IZR d <> 0%R |- _ => fail
+      | _ => assert (IZR d <> 0%R) by (apply not_0_IZR; lia)
+      end
+  end.
+Ltac tie_push := repeat first [ rewrite plus_IZR in * | rewrite minus_IZR in * | rewrite mult_IZR in * | rewrite opp_IZR in * ].
+Ltac tie_abs :=
+  unfold Rabs in *; repeat match goal with
+  | |- context [Rcase_abs ?x] => destruct (Rcase_abs x)
+  | H : context [Rcase_abs ?x] |- _ => destruct (Rcase_abs x)
+  end.
+Ltac tie_real :=
+  tie_bools; tie_nat; tie_nz; tie_push; simpl Z.of_nat;
+  first [ reflexivity | lra | (field; repeat split; first [assumption | lra | auto]) | (tie_abs; tie_bools; first [lra | nra])
+        | (field_simplify_eq; [first [lra | nra | ring] | repeat split; first [assumption | lra | auto]]) ].
+
+Ltac tie_comp :=
+  repeat match goal with
+  | |- (_, _) = (_, _) => apply (f_equal2 pair)
+  | |- Some _ = Some _ => apply f_equal
+  end.
 Ltac tie_close :=
-  tie_inj; try reflexivity; try (exfalso; lia); try lia; try (exfalso; tie_bools; lra);
-  try (repeat f_equal; tie_nat; simpl Z.of_nat; try reflexivity; try lia; try lra; try (field; try lra; try (apply not_0_IZR; lia))).
+  tie_inj;
+  first [ reflexivity | (exfalso; lia) | discriminate | (exfalso; tie_bools; lra) | (exfalso; tie_bools; tie_abs; lra)
+        | (tie_comp; first [reflexivity | tie_zarith | tie_real]) | idtac ].
